@@ -362,6 +362,16 @@ class MindsDBLexer(Lexer):
         # the token keeps its source text (sigil and quotes); see `variable_name` in the parser
         return t
 
+    def tokenize(self, text, lineno=1, index=0):
+        # line numbers are counted on the text itself: the per-rule counting misses a newline inside a
+        # keyword like `IS\nNOT`, and every consumer (error location, raw query text) needs the line a token starts on
+        pos, line = index, lineno
+        for tok in super().tokenize(text, lineno, index):
+            line += text.count('\n', pos, tok.index)
+            pos = tok.index
+            tok.lineno = line
+            yield tok
+
     def error(self, t):
 
         # convert to lines
